@@ -23,7 +23,7 @@ RULE = ('every element (both isotope modes) and every tabulated isotope once (ex
         'isotope mode, factor)')
 SHARDS = {'quick': 16, 'thorough': 16}
 MIN_NONTRIVIAL = {'quick': 1000, 'thorough': 30000}
-TIME_CAP = {'quick': 45, 'thorough': 780}
+TIME_CAP = {'quick': 300, 'thorough': 3600}
 REQUIRED_CLASSES = ['single-element', 'single-isotope', 'natural', 'most-abundant', 'group', 'nesting>=3',
                     'multiplied-group-followed-by-group', 'multiplied-group-followed-by-explicit-plus',
                     'two-capitals-in-a-row', 'count>=10', 'isotope-suffix', 'charge-suffix', 'isotope+charge-suffix',
